@@ -259,11 +259,19 @@ def native_run(script_path, timeout=120):
     env['PYTHONDONTWRITEBYTECODE'] = '1'
     env['TMPDIR'] = private_tmp()
     env['PYTHONHASHSEED'] = os.environ.get('PYTHONHASHSEED', '0')
+    # a busy machine must not turn a replay into "not confirmed": the budget grows with the load, and a timeout is retried once
     try:
-        p = subprocess.run([VENV_PY, '-B', script_path], capture_output=True, text=True, timeout=timeout, env=env)
-        return p.returncode, (p.stdout + p.stderr)[-4000:]
-    except subprocess.TimeoutExpired:
-        return 124, 'timeout'
+        load = os.getloadavg()[0] / float(os.cpu_count() or 1)
+    except OSError:
+        load = 0.0
+    budget = timeout * max(1.0, min(8.0, 2.0 * load))
+    for attempt in (1, 2):
+        try:
+            p = subprocess.run([VENV_PY, '-B', script_path], capture_output=True, text=True, timeout=budget, env=env)
+            return p.returncode, (p.stdout + p.stderr)[-4000:]
+        except subprocess.TimeoutExpired:
+            budget *= 4
+    return 124, 'timeout'
 
 def parse_args(argv):
     tier = os.environ.get('VERIF_TIER', 'quick')
